@@ -921,6 +921,34 @@ def run(ctx) -> None:
                     },
                 )
 
+        # the GitHub format rewrites the file name (relative to the working directory): whatever it prints must still NAME the
+        # checked file — also for files outside the working directory, in a sibling whose name merely starts like it
+        with core.scratch("rv-c07gh-") as gd:
+            layout = {"proj/in.py": "x = int(0)\n", "proj/sub/deep.py": "y = list()\n", "proj-old/mod.py": "z = int(0)\n", "projx/m.py": "w = int(0)\n", "other/omod.py": "v = int(0)\n"}
+            for rel, src in layout.items():
+                (gd / rel).parent.mkdir(parents=True, exist_ok=True)
+                (gd / rel).write_text(src)
+            (gd / "proj" / "pyproject.toml").write_text("")
+            cwd = gd / "proj"
+            spellings = ["in.py", "sub/deep.py", "../proj-old/mod.py", "../projx/m.py", "../other/omod.py", str(gd / "proj-old" / "mod.py"), str(gd / "proj" / "in.py"), "./sub/../in.py"]
+            runs = [[sp, "--format", "github", "--quiet"] for sp in spellings] + [["in.py", "../proj-old/mod.py", "../other/omod.py", "--format", "github", "--quiet"]]
+            with ThreadPoolExecutor(9) as ex:
+                outs = list(ex.map(lambda a: core.refurb_cli(a, cwd=cwd, timeout=300), runs))
+            for argv, (rc, out, err) in zip(runs, outs):
+                given = {(cwd / a).resolve() for a in argv if a.endswith(".py")}
+                res.case(("github-file", tuple(argv)))
+                res.bump("github_file_name_runs")
+                anns = [m for m in map(gh_re.match, out.split("\n")) if m]
+                bad = [m.group(5) for m in anns if (cwd / m.group(5)).resolve() not in given]
+                if err.strip() or rc not in (0, 1) or len(anns) != len(given) or bad:
+                    res.violate(
+                        f"--format github: `file=` does not name the checked file for {argv[:-3]} (printed: {[m.group(5) for m in anns]})",
+                        {"kind": "github-format-file", "outside_cwd": any(a.startswith(("..", "/")) for a in argv)},
+                        {"tree": layout, "cwd": "proj/", "argv": argv, "stdout": out[:600], "stderr": err[-400:],
+                         "required": "one annotation per file whose file= value, resolved against the working directory, is the checked file",
+                         "how": "create `tree` in an empty directory, cd proj, python -m refurb <argv>"},
+                    )
+
         per_file: dict[str, list[dict[str, Any]]] = {n: [] for n in files}
         ran_ok: set[str] = set()
         for r in results:
